@@ -19,6 +19,8 @@ pub enum FnKind {
     Count,
     Wrap,
     Const(Value),
+    /// fails on every call
+    Fail,
 }
 
 #[derive(Clone, Debug)]
@@ -42,6 +44,7 @@ impl FnSpec {
             FnKind::Count => "count".to_string(),
             FnKind::Wrap => "wrap".to_string(),
             FnKind::Const(v) => format!("(const {})", enc_value(v)),
+            FnKind::Fail => "fail".to_string(),
         };
         format!(
             "(fn {} {} {} (fail{}) (failarg{}))",
@@ -112,7 +115,7 @@ impl UserFunction for HFn {
             i
         };
         let key = enc_value(&params);
-        if self.spec.fail_idx.contains(&idx) || self.spec.fail_args.iter().any(|a| enc_value(a) == key) {
+        if matches!(self.spec.kind, FnKind::Fail) || self.spec.fail_idx.contains(&idx) || self.spec.fail_args.iter().any(|a| enc_value(a) == key) {
             return Err(anyhow::anyhow!("fail{}", idx));
         }
         Ok(match &self.spec.kind {
@@ -120,6 +123,7 @@ impl UserFunction for HFn {
             FnKind::Count => Value::Int(idx as i128),
             FnKind::Wrap => Value::Vec(vec![params, Value::Int(idx as i128)]),
             FnKind::Const(v) => v.clone(),
+            FnKind::Fail => unreachable!(),
         })
     }
     fn name(&self) -> &'static str {
